@@ -95,10 +95,17 @@ Proof.
       by (intros o; destruct (jlookup key o) as [[]|]; try reflexivity; apply Hhex).
     destruct ptr.
     + apply bind_no_panic; [|reflexivity]. destruct code, j; try reflexivity; try apply Hhex; try apply Hobj.
-    + destruct j; try reflexivity; try apply Hhex. destruct code; [apply Hobj|reflexivity].
-  - cbn [jdecode]. destruct j; try reflexivity.
-    + apply bind_no_panic; [apply decode_hex_np|reflexivity].
-    + destruct (jlookup key l) as [[]|]; try reflexivity. apply bind_no_panic; [apply decode_hex_np|reflexivity].
+    + destruct j; try reflexivity; try apply Hhex.
+      destruct code; [destruct (check_code _ _); [reflexivity|apply Hobj]|reflexivity].
+  - cbn [jdecode].
+    assert (Hel : is_panic (let* l := seq_view true j in let* b := dec_byte_list true l in Ok (VStr b)) = false).
+    { apply bind_no_panic; [apply seq_view_fixed_np|]. intros l _. apply bind_no_panic; [|reflexivity].
+      induction l as [|x r IH]; [reflexivity|]. cbn [dec_byte_list].
+      destruct x; try reflexivity; (apply bind_no_panic; [exact IH|reflexivity]). }
+    destruct j; try (destruct named; [exact Hel|reflexivity]).
+    + destruct named; [exact Hel|]. apply bind_no_panic; [apply decode_hex_np|reflexivity].
+    + destruct (check_code _ _); [reflexivity|].
+      destruct (jlookup key l) as [[]|]; try reflexivity. apply bind_no_panic; [apply decode_hex_np|reflexivity].
 Qed.
 
 Theorem jdecode_total : forall s j, (exists v, jdecode true s j = Ok v) \/ (exists e, jdecode true s j = Err e).
